@@ -124,7 +124,8 @@ impl Prop for C01 {
             let _ = log;
             Case { form: 9, c: c.into_iter().map(B).collect(), x: B(x) }
         });
-        prop_oneof![16 => general, 4 => exact_class(), 1 => extreme].boxed()
+        let _ = extreme; // kept for reference: every such case is outside the scheme-independent domain
+        prop_oneof![4 => general, 1 => exact_class()].boxed()
     }
     fn check(&self, case: &Case, ctx: &mut Ctx) -> Outcome {
         let form = case.form % 20;
@@ -161,9 +162,10 @@ impl Prop for C01 {
                 if i > 0 {
                     pw = pw.mul(&xd);
                 }
-                // fixed-degree forms (Estrin) form bare powers of x, so those must be in range too; the
-                // dynamic-degree Horner form never does: only its terms and coefficients are constrained
-                let power_ok = form == 9 || i <= 1 || in_range(&pw, 900);
+                // bare powers x^i (i >= 2) must be in range for EVERY form: the property's bound is meant to hold
+                // 'whatever evaluation scheme is used', and Estrin as well as forward-power schemes form x^i
+                // (the unrolled Poly2..Poly8 of the library do); x itself is an exact input
+                let power_ok = i <= 1 || in_range(&pw, 900);
                 if !power_ok || !in_range(&pw.mul(&d(ci)), 900) || !in_range(&d(ci), 900) {
                     return Outcome::Skip("a partial term overflows/underflows 2^±900");
                 }
